@@ -69,6 +69,8 @@ type Violation struct {
 	Sig    string `json:"signature"`
 	Detail string `json:"detail"`
 	Case   string `json:"case"`
+	// History is the number of preceding cases behind which the deviation shows (0: alone).
+	History int `json:"history,omitempty"`
 }
 
 // Result is what a worker reports for a range of cases.
@@ -126,6 +128,8 @@ type Runner struct {
 	Res    *Result
 	hashes map[uint64]struct{}
 	sets   map[string]map[uint64]struct{}
+	// historyReplays counts the replays of a whole worker prefix (bounded per worker)
+	historyReplays int
 }
 
 // NewRunner creates a runner.
@@ -138,11 +142,15 @@ func NewRunner(p *Property, tier string, seed uint64, from, to int) *Runner {
 // Every case is a deterministic function of (seed, property, index) - C17, whose
 // trials depend on the schedule, re-examines its deviations itself. A violation
 // is therefore reported under its own signature when the case deviates again on
-// re-evaluation (up to two more times, any signature); a case that is completely
-// clean both times cannot owe its deviation to the code under test as a function
-// of this input, and the deviation is attributed to the recorded finding "tensor memory freed while
-// referenced through a uintptr" (gorgonia's collector-unsafe slice headers, see
-// GCProbe), under GCUnreproducedSignature.
+// re-evaluation (any signature): alone (up to two more times), or - because the
+// library may keep state between calls (pools, caches, memos) - behind the case
+// before it, or behind all the cases this worker evaluated before it (at most
+// three such prefix replays per worker; the violation records how many preceding
+// cases its replay needs). A case that stays completely clean in all of these
+// cannot owe its deviation to the code under test as a function of this input or
+// of the calls before it, and the deviation is attributed to the recorded finding
+// "tensor memory freed while referenced through a uintptr" (gorgonia's
+// collector-unsafe slice headers, see GCProbe), under GCUnreproducedSignature.
 func (r *Runner) RunCase(idx int, verbose bool) {
 	c := &Ctx{Prop: r.P.ID, Tier: r.Tier, Seed: r.Seed, Idx: idx, R: gen.ForCase(r.Seed, r.P.ID, idx), Verbose: verbose, res: r.Res, hashes: r.hashes, sets: r.sets}
 	r.Res.Cases++
@@ -154,18 +162,47 @@ func (r *Runner) RunCase(idx int, verbose bool) {
 	if len(first) == 0 {
 		return
 	}
-	again := 0
+	again, history := 0, 0
 	for k := 0; k < 2 && again == 0; k++ {
 		c.R = gen.ForCase(r.Seed, r.P.ID, idx)
 		again += len(c.Captured(func() { r.P.Run(c) }))
 	}
+	// not shown again alone: the deviation may depend on what the library kept from the cases
+	// before it (process-wide pools, caches, memos). Replay the case behind its predecessor,
+	// then (a bounded number of times per worker) behind all the cases this worker ran before it.
+	if again == 0 {
+		var spans []int
+		if idx-r.Res.From >= 1 {
+			spans = append(spans, 1)
+		}
+		if idx-r.Res.From > 1 && r.historyReplays < 3 {
+			spans = append(spans, idx-r.Res.From)
+			r.historyReplays++
+		}
+		for _, h := range spans {
+			for j := idx - h; j < idx; j++ {
+				scratch := &Ctx{Prop: r.P.ID, Tier: r.Tier, Seed: r.Seed, Idx: j, R: gen.ForCase(r.Seed, r.P.ID, j), res: NewResult(r.P.ID, j, j+1), hashes: map[uint64]struct{}{}, sets: map[string]map[uint64]struct{}{}}
+				_ = scratch.Captured(func() { r.P.Run(scratch) })
+			}
+			c.R = gen.ForCase(r.Seed, r.P.ID, idx)
+			if n := len(c.Captured(func() { r.P.Run(c) })); n > 0 {
+				again, history = n, h
+				break
+			}
+		}
+	}
 	for _, v := range first {
 		if again > 0 { // the case deviates again (under whatever signature): reported as observed
+			if history > 0 {
+				r.Res.Counters["deviations-shown-again-only-behind-the-preceding-cases"]++
+				c.violationWithHistory(v.Sig, history, "%s [not shown by the case alone; shown again when evaluated behind the %d case(s) before it]", v.Detail, history)
+				continue
+			}
 			c.Violation(v.Sig, "%s", v.Detail)
 			continue
 		}
 		r.Res.Counters["deviations-not-shown-again-on-re-evaluation"]++
-		c.Violation(GCUnreproducedSignature, "%s: %s [the same case evaluated two more times showed no deviation at all]", v.Sig, v.Detail)
+		c.Violation(GCUnreproducedSignature, "%s: %s [the same case evaluated again - alone twice, and behind the cases before it - showed no deviation at all]", v.Sig, v.Detail)
 	}
 }
 
@@ -240,14 +277,18 @@ func (c *Ctx) Sample(v any) {
 // Violation records a violation. sig is the signature of the *kind* of wrong
 // behaviour (stable across runs); detail describes this instance.
 func (c *Ctx) Violation(sig, format string, a ...any) {
+	c.violationWithHistory(sig, 0, format, a...)
+}
+
+func (c *Ctx) violationWithHistory(sig string, history int, format string, a ...any) {
 	detail := fmt.Sprintf(format, a...)
 	if c.capture != nil {
-		*c.capture = append(*c.capture, Violation{Idx: c.Idx, Sig: sig, Detail: detail, Case: c.caseStr})
+		*c.capture = append(*c.capture, Violation{Idx: c.Idx, Sig: sig, Detail: detail, Case: c.caseStr, History: history})
 		return
 	}
 	c.res.SigCounts[sig]++
 	if c.res.SigCounts[sig] <= 3 {
-		c.res.Violations = append(c.res.Violations, Violation{Idx: c.Idx, Sig: sig, Detail: detail, Case: c.caseStr})
+		c.res.Violations = append(c.res.Violations, Violation{Idx: c.Idx, Sig: sig, Detail: detail, Case: c.caseStr, History: history})
 	}
 	if c.Verbose {
 		fmt.Printf("  VIOLATION-DETAIL signature=%s: %s\n", sig, detail)
